@@ -25,7 +25,14 @@ class BitcoinVM(VM):
     INSTRUCTION_LOOKUP = make_instruction_lookup(opcodes.OPCODE_LIST)
     ScriptStreamer = BitcoinScriptStreamer
 
-    def pop_int(self) -> int:
+    MAX_INT_SIZE = 4
+
+    def pop_int(self, max_size: int | None = None) -> int:
+        # numeric operands are limited to 4 bytes (CScriptNum's default nMaxNumSize) unless the opcode says otherwise
+        if max_size is None:
+            max_size = self.MAX_INT_SIZE
+        if len(self[-1]) > max_size:
+            raise ScriptError("script number overflow", errno.UNKNOWN_ERROR)
         return self.IntStreamer.int_from_script_bytes(  # type: ignore[no-any-return]
             self.pop(), require_minimal=bool(self.flags & VERIFY_MINIMALDATA)
         )
